@@ -235,7 +235,8 @@ func prepare(data []float64, ctx *EncodeContext) {
 
 	for i := range data {
 		v := data[i]
-		if i > 0 && v != data[i-1] {
+		// compare bit patterns: 0 and -0 are different values
+		if i > 0 && math.Float64bits(v) != math.Float64bits(data[i-1]) {
 			ctx.repeatedBlockCount++
 		}
 
